@@ -289,6 +289,12 @@ func (x *Exec) evalBuiltin(name string, e *ast.CallExpr, st *State, sp *SpecCtx,
 		if v.Len != nil {
 			return Value{T: intT, Term: v.Len}
 		}
+		if v.Dom != nil {
+			// the number of entries of a map is a function of its key set (two evaluations on the same map agree)
+			l := App("maplen", IntS, v.Dom)
+			x.assumeGlobal(Ge(l, IntLit(0)), "maplen>=0")
+			return Value{T: intT, Term: l}
+		}
 		if v.Term != nil && v.Term.S.K == SStr {
 			l := App("strlen", IntS, v.Term)
 			x.assumeGlobal(Ge(l, IntLit(0)), "strlen>=0")
